@@ -79,6 +79,8 @@ var outcomeTable = map[string]outcome{
 	"rejTemp":         {false, false, true}, // NotLeaderForPartition in the partition response
 	"rejTemp2":        {false, false, true}, // NotEnoughReplicas
 	"rejPerm":         {false, false, false},
+	"rejUnknown":      {false, false, false}, // UNKNOWN_SERVER_ERROR (-1), the only negative error code
+	"rejPerm2":        {false, false, false}, // InvalidRequiredAcks (21): not retriable
 	"netTransient":    {false, false, true},  // ECONNRESET before the request was applied
 	"netRefused":      {false, false, true},  // ECONNREFUSED
 	"netOther":        {false, false, false}, // opaque transport error
@@ -517,7 +519,7 @@ func (r *run) produce(q *produce.Request) (kafka.Response, error) {
 	if !r.sc.Cfg.Acked {
 		// without acknowledgements the client cannot see broker-side rejections
 		switch kind {
-		case "rejTemp", "rejTemp2", "rejPerm":
+		case "rejTemp", "rejTemp2", "rejPerm", "rejUnknown", "rejPerm2":
 			kind = "silentDrop"
 		}
 	} else if kind == "silentDrop" {
@@ -552,6 +554,10 @@ func (r *run) produce(q *produce.Request) (kafka.Response, error) {
 		return mk(19), nil
 	case "rejPerm":
 		return mk(10), nil
+	case "rejUnknown":
+		return mk(-1), nil
+	case "rejPerm2":
+		return mk(21), nil
 	case "netTransient":
 		return nil, &net.OpError{Op: "write", Net: "tcp", Err: syscall.ECONNRESET}
 	case "netRefused":
